@@ -168,7 +168,7 @@ def _times(draw, dtScale, total_log10=None):
 
 
 @st.composite
-def toy_binary_scenario(draw, cap=400, max_phases=3, allow_profile=True, sites=None, allow_shapes=True, undersat=True, total_log10=None, dtScales=None, allow_elastic=False, allow_kbeta=False, strain_odds=3):
+def toy_binary_scenario(draw, cap=400, max_phases=3, allow_profile=True, sites=None, allow_shapes=True, undersat=True, total_log10=None, dtScales=None, allow_elastic=False, allow_kbeta=False, strain_odds=3, allow_param_calls=False):
     T0 = draw(st.floats(500.0, 900.0))
     nph = min(max_phases, draw(st.sampled_from([1, 1, 1, 2, 2, 3])))
     x0 = 10 ** draw(st.floats(-3.3, -1.3))
@@ -212,12 +212,13 @@ def toy_binary_scenario(draw, cap=400, max_phases=3, allow_profile=True, sites=N
     if opts:
         sc["options"] = opts
     _draw_api(draw, sc)
-    _param_calls(draw, sc)
+    if allow_param_calls:
+        _param_calls(draw, sc)      # molar volumes set again between solve calls: only for the mass / moment identities (C01, C02), which hold for whatever table the running model uses
     return sc
 
 
 @st.composite
-def toy_multi_scenario(draw, cap=300, max_phases=2, allow_profile=True, min_phases=1, allow_shapes=False, strain_odds=3):
+def toy_multi_scenario(draw, cap=300, max_phases=2, allow_profile=True, min_phases=1, allow_shapes=False, strain_odds=3, allow_param_calls=False):
     T0 = draw(st.floats(600.0, 1000.0))
     nph = max(min_phases, min(max_phases, draw(st.sampled_from([1, 1, 2]))))
     x0 = [draw(st.floats(0.005, 0.08)), draw(st.floats(0.005, 0.08))]
@@ -269,7 +270,8 @@ def toy_multi_scenario(draw, cap=300, max_phases=2, allow_profile=True, min_phas
             kf = 0.0          # grain-boundary energy exactly 0 (documented: equivalent to bulk precipitation)
         sc["gbe"] = min(2 * kf * KMAX[p["site"]] * p["gamma"] for p in gbs)
     _draw_api(draw, sc)
-    _param_calls(draw, sc)
+    if allow_param_calls:
+        _param_calls(draw, sc)      # molar volumes set again between solve calls: only for the mass / moment identities (C01, C02), which hold for whatever table the running model uses
     return sc
 
 
@@ -303,5 +305,4 @@ def real_scenario(draw, cap=120, systems=("alzr", "nicral")):
                "constraints": cons, "iterator": draw(st.sampled_from(["euler", "rk4"])),
                "durations": [total] if nd == 1 else [total * 0.4, total * 0.6], "cap": cap})
     _draw_api(draw, sc)
-    _param_calls(draw, sc)
     return sc
